@@ -17,7 +17,7 @@
 (***************************************************************************)
 EXTENDS Naturals, Sequences, FiniteSets, TLC, Json
 
-CONSTANTS Layouts     \* set of [items : Seq(Item), pkgdoc, build, imports, sibling]
+CONSTANTS Layouts     \* set of [items : Seq(Item), pkgdoc, build, imports, sibling, embed]
 
 (* Item kinds
    [k |-> "decl", id, form (var|func|type|const), doc, trail, gen]        gen: a go:generate line sits in/above its doc
@@ -26,7 +26,11 @@ CONSTANTS Layouts     \* set of [items : Seq(Item), pkgdoc, build, imports, sibl
          nmeth, short, oneline, mdoc, trail, after, gap]
    [k |-> "tmark", id]     a non-interface type whose doc carries a :convergen line
    [k |-> "float", id]     a comment attached to nothing
-   sibling: "none" | "marked" | "named"   another file of the package with a marked / Convergen-named interface *)
+   sibling: "none" | "marked" | "named"   another file of the package with a marked / Convergen-named interface
+   embed:   "none" | "file" | "sibling"   the first converter interface embeds an unmarked interface with one method,
+            declared in this file (the item with id "emb") or in a sibling file: the methods of a converter
+            interface are its method set (parser/method.go parseMethods), so the embedded method gets a
+            function too, while the embedded interface itself stays what it is *)
 
 VARIABLES layout, i, out, rejected, pc
 vars == <<layout, i, out, rejected, pc>>
@@ -48,18 +52,21 @@ Find == /\ pc = "find"
         /\ UNCHANGED <<layout, i, out>>
 
 Methods(it) == 1..it.nmeth
+FirstSelected == CHOOSE j \in SelectedIdx : \A k \in SelectedIdx : j <= k
+\* number of functions a converter interface yields: one per method of its method set
+NFuncs(j) == Items[j].nmeth + (IF layout.embed # "none" /\ j = FirstSelected THEN 1 ELSE 0)
 \* output items
-ODecl(it)  == [k |-> "decl", id |-> it.id, doc |-> it.doc, trail |-> it.trail]
-OIntf(it)  == [k |-> "intf", id |-> it.id, doc |-> it.doc, trail |-> FALSE]
-OFuncs(it) == [k |-> "funcs", id |-> it.id, doc |-> it.mdoc, trail |-> FALSE]   \* one function per method; doc = method docs forwarded
-OType(it)  == [k |-> "decl", id |-> it.id, doc |-> TRUE, trail |-> FALSE]
+ODecl(it)  == [k |-> "decl", id |-> it.id, doc |-> it.doc, trail |-> it.trail, nf |-> 0]
+OIntf(it)  == [k |-> "intf", id |-> it.id, doc |-> it.doc, trail |-> FALSE, nf |-> 0]
+OFuncs(j)  == [k |-> "funcs", id |-> Items[j].id, doc |-> Items[j].mdoc, trail |-> FALSE, nf |-> NFuncs(j)]   \* one function per method; doc = method docs forwarded
+OType(it)  == [k |-> "decl", id |-> it.id, doc |-> TRUE, trail |-> FALSE, nf |-> 0]
 
 Scan == /\ pc = "scan" /\ i <= Len(Items)
         /\ LET it == Items[i] IN
            out' = CASE it.k = "decl"  -> Append(out, ODecl(it))
                     [] it.k = "tmark" -> Append(out, OType(it))                  \* a marked non-interface is just a type
                     [] it.k = "float" -> out                                      \* floating comments are not demanded
-                    [] Selected(it)   -> Append(out, OFuncs(it))                  \* replaced IN PLACE by its functions
+                    [] Selected(it)   -> Append(out, OFuncs(i))                   \* replaced IN PLACE by its functions
                     [] OTHER          -> Append(out, OIntf(it))                   \* any other interface is carried over untouched
         /\ i' = i + 1
         /\ UNCHANGED <<layout, rejected, pc>>
@@ -77,6 +84,9 @@ OutIds == [j \in DOMAIN out |-> out[j].id]
 \* whatever the layout attributes are - and every method gets its function
 AcceptWellFormed == Done => (rejected <=> SelectedIdx = {})
 EveryMethod == Done /\ ~rejected => \A j \in SelectedIdx : \E o \in DOMAIN out : out[o].k = "funcs" /\ out[o].id = Items[j].id
+\* C17: one function per method of the method set, embedded methods included
+OnePerMethod == Done /\ ~rejected => \A o \in DOMAIN out : out[o].k = "funcs" =>
+   \E j \in SelectedIdx : Items[j].id = out[o].id /\ out[o].nf = NFuncs(j) /\ out[o].nf >= Items[j].nmeth
 \* C17: only selected interfaces are converted; every other interface survives
 OnlySelected == Done /\ ~rejected =>
    \A j \in DOMAIN Items : IsIntf(Items[j]) =>
